@@ -80,8 +80,29 @@ theorem exOr_compile (tol : Ext K) : ∃ lm, Compile.linearize (exOr : Model (Ex
       Bounds.ofVarType]
   obtain ⟨lm, h⟩ := exOr_ok_of (K := K)
     (Compile.toLinBounds ({ Analyzer.fromDomain (exOr : Model (Ext K)).domain tol with reachedIterationLimit := true } : Analyzer (Ext K)).variableBounds)
+  have hscr : scratchOK (exOr : Model (Ext K)) tol 0 := by
+    refine ⟨((), Compile.scratchState exOr tol 0), ?_⟩
+    have hsimp : simplify (.or [.var "a", .var "b"] : Exp (Ext K)) = .or [.var "a", .var "b"] := by
+      simp [simplify, naryCore, naryFlatten, naryStep, naryScan, mayBeUndefinedAny, mayBeUndefined]
+    have hnode : ∀ s : St (Ext K), collapseCheck (.or [.var "a", .var "b"] : Exp (Ext K)) s = .ok ((), s) := by
+      intro s
+      rw [collapseCheck]
+      simp only [bind_ok]
+      refine ⟨⟨⟩, s, ?_, ?_⟩
+      · simp only [collapseCheckList, bind_ok]
+        exact ⟨⟨⟩, _, by rw [collapseCheck]; rfl, ⟨⟩, _, by rw [collapseCheck]; rfl, rfl⟩
+      · unfold collapseNode
+        simp only [bind_ok, get_ok, hsimp]
+        exact ⟨_, _, rfl, by simp [isLogicValue, pure_ok]⟩
+    unfold collapseCheckAll
+    simp only [bind_ok]
+    refine ⟨⟨⟩, Compile.scratchState exOr tol 0, by simp only [exOr]; rw [collapseCheck]; rfl, ?_⟩
+    show collapseCheckConstraints [exOrC] _ = _
+    rw [collapseCheckConstraints]
+    simp only [exOrC, Bool.not_true, Bool.false_eq_true, if_false, bind_ok]
+    exact ⟨⟨⟩, _, hnode _, by rw [collapseCheckConstraints]; rfl⟩
   refine ⟨lm, (compile_ok_iff _ _ _ _).mpr
-    ⟨{ Analyzer.fromDomain (exOr : Model (Ext K)).domain tol with reachedIterationLimit := true }, ?_, ?_⟩⟩
+    ⟨hscr, { Analyzer.fromDomain (exOr : Model (Ext K)).domain tol with reachedIterationLimit := true }, ?_, ?_⟩⟩
   · simp only [pipelineAnalyzer, exOr_normalized, Option.map_some, exOr_analyzer]
   · rw [hd]; exact h
 
